@@ -5,6 +5,29 @@ Real code: edzed.FSM timers (generic generated FSMs), edzed.Timer, edzed.InputEx
 virtual loop. Oracle: timed FSM reference model used as a *monitor*: it consumes the
 observed order of external events and timer expirations (ties are legal both ways) and
 checks every delivery, the single pending timer handle, its deadline, and silence after stop.
+
+Bystanders (plan keys with defaults, old replay files keep working):
+  failstop  - sync blocks whose stop() raises (their place in the stop order: hash_salt)
+  slowstop  - AddonAsync blocks whose stop_async() takes virtual time, i.e. the clean-up of
+              the circuit is a window of virtual time in which the FSMs are still alive; the
+              block may itself ask for a termination again from inside that window
+              (Event to '_ctrl' shutdown/abort, circuit.abort(exc))
+  oasync    - an OutputAsync (coro = scripted asyncio.sleep) whose on_success / on_cancel /
+              on_error events are events of the monitored FSMs; puts are placed shortly before
+              the stop (the run is in flight when the shutdown begins) or so that the
+              completion meets a predicted expiration; optional stop_data / guard_time.
+              Such an event is a perfectly legal event whenever it arrives (also during the
+              clean-up): the monitor follows it like any other event (origin 'byst').
+  term2     - a second termination request by the driver at stop_at + dt (circuit.abort(exc),
+              abort(CancelledError), a second shutdown() from another task)
+After run_forever() ended no FSM timer may be pending and nothing may fire, whatever happened
+during the clean-up.
+
+Seeded changes (tools/seeded.py, quick tier): C04-s1..s9 detected. s7 (every abort() cancels
+the simulation task again, a second one arriving during the asynchronous clean-up skips the
+stop() of the FSMs) needs slowstop|oasync + term2/act; s9 (stop() of the sync blocks moved
+before the asynchronous clean-up) needs oasync with an event that arms a timer during the
+clean-up.
 """
 
 from __future__ import annotations
@@ -25,17 +48,26 @@ RUNS = {'quick': 40000, 'thorough': 800000}
 CHUNK = 250
 RULE = ("one run = 1-3 timed blocks (generated timed FSM / Timer / InputExp) driven by 2-12 "
         "external events placed before, in the same instant as, or after predicted expirations, "
-        "under drawn latency/cost/tie-order/stall knobs; non-trivial = at least one timer "
+        "under drawn latency/cost/tie-order/stall knobs; bystanders: blocks whose stop() raises, "
+        "blocks with a slow asynchronous clean-up, an OutputAsync whose result events drive the "
+        "FSMs (also during the clean-up), a second termination request during the clean-up; "
+        "non-trivial = at least one timer "
         "expiration was observed or cancelled; distinct = hash of the abstracted behaviour "
         "(per block: sequence of (origin, event, accepted, new state, timer armed), values and "
         "times removed)")
 REACH_EXPECTED = ['tie_event_before_timer', 'tie_timer_before_event', 'timer_cancelled_by_exit',
                   'zero_duration_chain', 'rejected_timed_event', 'per_event_duration',
-                  'stop_with_pending_timer', 'inf_duration', 'no_duration_error']
+                  'stop_with_pending_timer', 'inf_duration', 'no_duration_error',
+                  'timer_fired_during_cleanup', 'second_termination_during_cleanup',
+                  'second_termination_with_pending_timer', 'event_during_async_cleanup',
+                  'timer_armed_during_cleanup', 'bystander_event_tie']
 ASSUMPTIONS = [
     "durations given as strings are looked up in the generator's own table, not parsed by the model",
     "timer deadlines are compared with 1 microsecond tolerance; lateness bound = drawn latency + "
     "50 x per-callback cost + injected stalls",
+    "timed events falling into the clean-up phase (after the termination request, before the "
+    "FSM's stop()) are checked when they are delivered, but not demanded",
+    "events sent by bystanders while a failed start is being cleaned up are not followed",
 ]
 
 
@@ -188,10 +220,82 @@ def gen(rng, tier, index=0):
     # fault: bystander blocks whose stop() raises (an error in one block's clean-up must not
     # keep the FSMs from being stopped; where they come in the stop order is up to hash_salt)
     plan['failstop'] = rng.choice([0, 0, 0, 0, 1, 2, 3])
+    # asynchronous bystanders and a second termination request. Drawn last: everything above
+    # is the same plan as before these keys existed.
+    plan['slowstop'] = []
+    plan['oasync'] = None
+    plan['term2'] = None
+    if rng.random() < 0.35:
+        plan['slowstop'] = [gen_slowstop(rng) for _ in range(rng.choice([1, 1, 2]))]
+    if rng.random() < 0.35:
+        plan['oasync'] = gen_oasync(rng, blocks, stop_at,
+                                    sorted(v[0] for v in deadlines.values()) if alive else [])
+    if (plan['slowstop'] or plan['oasync']) and rng.random() < 0.5:
+        plan['term2'] = {'dt': rng.choice([0.0, 1e-6, 0.001, 0.05, 0.2, 0.6, 3.0]),
+                         'how': rng.choice(TERM2_DRIVER)}
     return plan
 
 
+# generous: the clean-up of the OutputAsync is never cut short (what happens then is C12's
+# business; with stop_timeout <= 0 the block has no asynchronous clean-up at all and its runs
+# legally outlive the simulation)
+OA_STOP_TIMEOUT = 30.0
+TERM2_DRIVER = ['abort_exc', 'abort_cancel', 'shutdown_task']
+TERM2_BLOCK = ['ctrl_shutdown', 'ctrl_abort', 'abort_exc', 'abort_cancel']
+
+
+def gen_slowstop(rng):
+    """A block whose stop_async() sleeps d1, optionally asks for termination again, sleeps d2."""
+    return {'d1': rng.choice([0.0, 0.001, 0.1, 0.25, 1.0]),
+            'd2': rng.choice([0.0, 0.05, 0.3, 1.5]),
+            'act': rng.choice([None, None, None] + TERM2_BLOCK),
+            'timeout': rng.choice([10.0, 10.0, 10.0, 10.0, 0.2])}
+
+
+def gen_oasync(rng, blocks, stop_at, deadlines):
+    """An OutputAsync whose result events are events of the monitored blocks."""
+    mode = rng.choice(['wait', 'wait', 'start', 'cancel'])
+    on = {}
+    for trig in ('success', 'cancel', 'error'):
+        if trig != 'success' and rng.random() < 0.5:
+            continue
+        b = rng.choice(blocks)
+        if b['kind'] == 'inputexp' and trig != 'success':
+            continue    # (only a successful run yields a 'value' for a put event)
+        extra = {}
+        if rng.random() < 0.25:
+            extra['duration'] = rng.choice(DUR_EVENT)
+        if b['kind'] == 'gfsm' and rng.random() < 0.1:
+            extra['ok'] = False
+        on[trig] = {'blk': b['name'], 'ev': rng.choice(block_events(b)), 'extra': extra}
+    puts = []
+    for _ in range(rng.choice([0, 1, 1, 2, 3])):
+        d = rng.choice([0.0, 0.001, 0.1, 0.3, 0.7, 2.0])
+        if deadlines and rng.random() < 0.3:
+            # completion before / in the same instant as / after a predicted expiration
+            t = rng.choice(deadlines) - d + rng.choice(OFFSETS)
+        else:
+            # shortly before the stop: typically still running when the shutdown begins
+            t = stop_at - rng.choice([0.0, 0.001, 0.05, 0.2, 0.5, 1.5])
+        puts.append({'t': round(max(0.01, t), 6), 'd': d, 'fail': rng.random() < 0.2,
+                     'v': rng.choice([1, 'v', 0, None])})
+    puts.sort(key=lambda p: p['t'])
+    oa = {'name': 'oa0', 'mode': mode, 'on': on, 'puts': puts, 'stop_data': None,
+          'guard': None}
+    if rng.random() < 0.4:
+        oa['stop_data'] = {'d': rng.choice([0.0, 0.1, 0.5]), 'fail': rng.random() < 0.15,
+                           'v': 'bye'}
+    if mode != 'start' and rng.random() < 0.2:
+        oa['guard'] = rng.choice([0.05, 0.4])
+    return oa
+
+
 # --------------------------------------------------------------------------- monitor
+
+def circuit_ready(run):
+    """False before the start is complete and from the first termination request on."""
+    return edzed.get_circuit().is_ready()
+
 
 class Monitor:
 
@@ -211,6 +315,8 @@ class Monitor:
         self.origin = None
         self.last_fire_ns = None
         self.top = None
+        self.leak = ''      # diagnosis of a timer left after the stop (signature suffix)
+        self.leak_reported = False
         k = run.knobs
         self.slack = k['latency_ns'] + 50 * k['cost_ns'] + 1000
 
@@ -226,8 +332,8 @@ class Monitor:
     # ---- event hook ----
     def hook(self, phase, blk, etype, arg):
         run = self.run
-        if run.stopped:
-            run.violate('C04/event-after-stop',
+        if run.stopped or (run.simtask is not None and run.simtask.done()):
+            run.violate('C04/event-after-stop' + self.leak,
                         f"{self.name()}: event {canon(etype)} delivered after the simulation stopped")
             return
         if phase == 'pre':
@@ -238,6 +344,11 @@ class Monitor:
             now = run.loop._ns
             jetype = {'goto': etype.state} if isinstance(etype, edzed.Goto) else etype
             self.top = (jetype, dict(arg))
+            if run.initialising and not circuit_ready(run):
+                # a failed start is being cleaned up (that takes time when a bystander has an
+                # asynchronous clean-up): blocks may be half initialised, the monitor stops
+                # following this one; only the silence after the stop is still demanded
+                self.dead = True
             if run.driver_op is not None and run.driver_op.get('blk') == self.name():
                 self.origin = 'ext'
                 if (self.deadline_ns is not None and not self.dead
@@ -249,12 +360,30 @@ class Monitor:
                     run.fired('reach:tie_event_before_timer')
                 if self.last_fire_ns == now:
                     run.fired('reach:tie_timer_before_event')
+            elif arg.get('source') in run.byst_names:
+                # a result event of the OutputAsync bystander: legal at any time
+                self.origin = 'byst'
+                if self.dead:
+                    return
+                if circuit_ready(run):
+                    if (self.deadline_ns is not None
+                            and now - self.deadline_ns > self.slack + self.stall_credit):
+                        run.violate('C04/timer-overdue',
+                                    f"{self.name()}: timed event {self.timed_event} was due "
+                                    f"{(now - self.deadline_ns) / 1e9:.6f}s ago and was not delivered")
+                else:
+                    run.fired('reach:event_during_async_cleanup')
+                if ((self.deadline_ns is not None and now >= self.deadline_ns)
+                        or self.last_fire_ns == now):
+                    run.fired('reach:bystander_event_tie')
             elif run.initialising:
                 self.origin = 'init'
             else:
                 self.origin = 'timer'
                 if self.dead:
                     return
+                if not circuit_ready(run):
+                    run.fired('reach:timer_fired_during_cleanup')
                 if self.deadline_ns is None:
                     run.violate('C04/stale-or-spurious-timed-event',
                                 f"{self.name()}: event {canon(etype)} delivered by a timer although "
@@ -345,6 +474,8 @@ class Monitor:
             if data.get('duration') is not None and model.state in model.spec.get('timers', {}):
                 run.fired('reach:per_event_duration')
             if model.timer is not None:
+                if origin == 'byst' and not circuit_ready(run):
+                    run.fired('reach:timer_armed_during_cleanup')
                 when = run.loop.time() + model.timer[0]
                 self.deadline_when = when
                 self.deadline_ns = int(round(when * 1e9))
@@ -429,6 +560,116 @@ class FailStop(edzed.SBlock):
         raise RuntimeError(f"injected stop() failure in {self.name}")
 
 
+def terminate_again(run, how, src=None):
+    """
+    A termination request that comes after the first one (harmless by the documentation:
+    "abort() delivers the exception only if the simulation hasn't received another
+    exception already"). how: see TERM2_DRIVER / TERM2_BLOCK; src: the requesting block.
+    """
+    circuit = edzed.get_circuit()
+    simtask = run.simtask
+    in_cleanup = (simtask is not None and not simtask.done() and not circuit.is_ready()
+                  and (run.cleanup_depth > 0 or run.oa_inflight > 0))
+    run.log('term2', how, src.name if src is not None else None, in_cleanup)
+    if in_cleanup:
+        run.beh('term2', how)
+        run.fired('reach:second_termination_during_cleanup')
+        if any(m.my_timers() for m in run.monitors.values()):
+            run.fired('reach:second_termination_with_pending_timer')
+    try:
+        if how == 'abort_exc':
+            circuit.abort(RuntimeError('scripted second termination'))
+        elif how == 'abort_cancel':
+            circuit.abort(asyncio.CancelledError('scripted second termination'))
+        elif how == 'ctrl_shutdown' and src is not None:
+            src.x_ev_shutdown.send(src)
+        elif how == 'ctrl_abort' and src is not None:
+            src.x_ev_abort.send(src, error=RuntimeError('scripted second termination'))
+        elif how == 'shutdown_task' and src is None:
+            async def again():
+                try:
+                    await circuit.shutdown()
+                except Exception as err:    # pylint: disable=broad-except
+                    # (the error that ended the simulation, when it was not a shutdown)
+                    run.log('term2-shutdown', err)
+            run.keep.append(asyncio.ensure_future(again()))
+        else:
+            raise PlanError(f"unknown termination request {how}")
+    except PlanError:
+        raise
+    except Exception as err:    # pylint: disable=broad-except
+        run.log('term2-exc', err)
+
+
+class SlowStop(edzed.AddonAsync, edzed.SBlock):
+    """Bystander whose asynchronous clean-up takes virtual time."""
+
+    def init_regular(self):
+        self.set_output(0)
+
+    async def stop_async(self):
+        run = self.x_run
+        spec = self.x_spec
+        run.cleanup_depth += 1
+        run.log('slowstop-begin', self.name)
+        try:
+            await asyncio.sleep(float(spec.get('d1', 0.0)))
+            if spec.get('act'):
+                terminate_again(run, spec['act'], self)
+            await asyncio.sleep(float(spec.get('d2', 0.0)))
+        finally:
+            run.cleanup_depth -= 1
+            run.log('slowstop-end', self.name)
+
+
+def build_oasync(run, oa, monitors):
+    """OutputAsync bystander; its result events go to the monitored blocks."""
+
+    async def coro(value):
+        if not isinstance(value, dict):
+            value = {}
+        run.oa_inflight += 1
+        run.log('oa-begin', value)
+        try:
+            await asyncio.sleep(float(value.get('d', 0.0)))
+            if value.get('fail'):
+                raise RuntimeError('scripted output failure')
+            return value.get('v')
+        finally:
+            run.oa_inflight -= 1
+            run.log('oa-end')
+
+    def adder(extra):
+        def add_items(data):
+            data.update(extra)
+            return data
+        return add_items
+
+    kw = {}
+    for trig in ('success', 'cancel', 'error'):
+        spec = oa.get('on', {}).get(trig)
+        kw[f"on_{trig}"] = None
+        if spec is None:
+            continue
+        mon = monitors.get(spec.get('blk'))
+        if mon is None:
+            continue    # (a shrunk plan may have lost the block)
+        extra = fsmlib.real_data(spec.get('extra') or {})
+        kw[f"on_{trig}"] = edzed.Event(mon.blk, spec['ev'],
+                                       efilter=adder(extra) if extra else None)
+    if oa.get('stop_data') is not None:
+        kw['stop_data'] = {'value': dict(oa['stop_data'])}
+    if oa.get('guard') is not None:
+        kw['guard_time'] = oa['guard']
+    try:
+        blk = edzed.OutputAsync(oa['name'], coro=coro, mode=oa['mode'],
+                                stop_timeout=OA_STOP_TIMEOUT, **kw)
+    except Exception as err:
+        raise PlanError(f"OutputAsync: {err}") from None
+    run.byst_names.add(blk.name)
+    return blk
+
+
 def build(run, plan):
     monitors = {}
     rec_n = 0
@@ -489,6 +730,16 @@ def build(run, plan):
         fsmlib.hook_events(blk, mon.hook)
         blk.event._sim_blk = blk
         monitors[b['name']] = mon
+    for i, spec in enumerate(plan.get('slowstop') or []):
+        try:
+            SlowStop(f"slowstop{i}", x_run=run, x_spec=spec, stop_timeout=spec.get('timeout', 10.0),
+                     x_ev_shutdown=edzed.Event('_ctrl', 'shutdown'),
+                     x_ev_abort=edzed.Event('_ctrl', 'abort'))
+        except Exception as err:
+            raise PlanError(f"SlowStop: {err}") from None
+    run.oasync = None
+    if plan.get('oasync'):
+        run.oasync = build_oasync(run, plan['oasync'], monitors)
     return monitors
 
 
@@ -500,8 +751,16 @@ def execute(plan, trace=False):
     run.driver_op = None
     run.last_driver_ns = None
     run.expect_abort = None
+    run.simtask = None
+    run.cleanup_depth = 0       # SlowStop blocks inside stop_async()
+    run.oa_inflight = 0         # runs of the OutputAsync's coroutine in progress
+    run.byst_names = set()
+    run.monitors = {}
+    run.keep = []
+    run.closing = False
     try:
         monitors = build(run, plan)
+        run.monitors = monitors
         circuit = edzed.get_circuit()
         loop = run.loop
 
@@ -544,8 +803,44 @@ def execute(plan, trace=False):
             finally:
                 run.driver_op = None
 
+        def check_leftover():
+            """No FSM timer may be pending once the simulation task has ended."""
+            for mon in monitors.values():
+                left = mon.my_timers()
+                if left and not mon.leak_reported:
+                    mon.leak_reported = True
+                    # diagnosis: either the FSM still regards the timer as its active one
+                    # (it was not stopped, or the timer was started after its stop()), or it
+                    # has lost track of the handle (nothing can cancel it any more)
+                    active = getattr(mon.blk, '_active_timer', None)
+                    if not any(h is active for h in left):
+                        mon.leak = '/orphaned-handle'
+                    run.violate('C04/timer-after-stop' + mon.leak,
+                                f"{mon.name()}: {len(left)} FSM timer(s) still pending after the "
+                                "simulation stopped"
+                                + (" (not the timer the FSM knows about)" if mon.leak else ""))
+
+        def on_sim_end(_task):
+            # run_forever() has ended, be it by shutdown(), by an error or by a failed start
+            if run.harness_error is None and not loop.is_closed() and not run.closing:
+                run.stopped = True
+                run.log('sim-ended')
+                check_leftover()
+
+        def do_put(put):
+            if not circuit.is_ready() or run.stopping:
+                run.log('skipped-put', put)
+                return
+            run.log('put', put)
+            try:
+                edzed.ExtEvent(run.oasync).send(dict(put))
+            except Exception as err:    # pylint: disable=broad-except
+                run.log('put-exc', err)
+
         async def main():
             simtask = asyncio.create_task(circuit.run_forever())
+            run.simtask = simtask
+            simtask.add_done_callback(on_sim_end)
             try:
                 await circuit.wait_init()
             except edzed.EdzedInvalidState as err:
@@ -559,9 +854,17 @@ def execute(plan, trace=False):
                     mon.check_state('after-init')
             for op in plan['ops']:
                 run.at(float(op['t']), do_op, op)
+            if run.oasync is not None:
+                for put in plan['oasync'].get('puts', []):
+                    run.at(float(put['t']), do_put, put)
             fut = loop.create_future()
             run.at(float(plan['stop_at']), fut.set_result, None)
             await fut
+            term2 = plan.get('term2')
+            if term2:
+                # (scheduled only now: it must come after the first request)
+                run.at(float(plan['stop_at']) + float(term2['dt']), terminate_again, run,
+                       term2['how'])
             pending = sum(1 for m in monitors.values() if m.my_timers())
             if pending:
                 run.fired('reach:stop_with_pending_timer')
@@ -585,12 +888,7 @@ def execute(plan, trace=False):
 
         run.run(main())
         if run.harness_error is None:
-            for mon in monitors.values():
-                left = mon.my_timers()
-                if left:
-                    run.violate('C04/timer-after-stop',
-                                f"{mon.name()}: {len(left)} FSM timer(s) still pending after the "
-                                "simulation stopped")
+            check_leftover()
             run.run_more(float(plan.get('drain', 200.0)))
         res = run.result()
         if not (run.stats.get('reach:timer_expired') or run.stats.get('reach:timer_cancelled_by_exit')
@@ -600,4 +898,5 @@ def execute(plan, trace=False):
             res['trace'] = run.trace
         return res
     finally:
+        run.closing = True
         run.close()
